@@ -337,11 +337,27 @@ func evalAPExpr(t string, vars map[string]string, env map[string]int64) (int64, 
 	}
 	var v int64
 	var err string
+	wholeParen := false
 	if strings.HasPrefix(t, "(") && strings.HasSuffix(t, ")") {
+		// the first parenthesis must be closed by the last one ("(*T).m(x)" is not a parenthesised expression)
+		depth := 0
+		for i, ch := range t {
+			if ch == '(' {
+				depth++
+			} else if ch == ')' {
+				depth--
+				if depth == 0 {
+					wholeParen = i == len(t)-1
+					break
+				}
+			}
+		}
+	}
+	if wholeParen {
 		inner := t[1 : len(t)-1]
 		done := false
 		for _, op := range []string{" == ", " != ", " <= ", " >= ", " < ", " > "} {
-			if i := strings.Index(inner, op); i >= 0 {
+			if i := indexTopLevel(inner, op); i >= 0 {
 				a, e1 := evalAPExpr(inner[:i], vars, env)
 				b, e2 := evalAPExpr(inner[i+len(op):], vars, env)
 				if e1 != "" {
@@ -389,6 +405,23 @@ func evalAPExpr(t string, vars map[string]string, env map[string]int64) (int64, 
 		}
 	}
 	return v, ""
+}
+
+// indexTopLevel: the first occurrence of op in s outside any parentheses/brackets.
+func indexTopLevel(s, op string) int {
+	depth := 0
+	for i := 0; i+len(op) <= len(s); i++ {
+		switch s[i] {
+		case '(', '[':
+			depth++
+		case ')', ']':
+			depth--
+		}
+		if depth == 0 && s[i:i+len(op)] == op {
+			return i
+		}
+	}
+	return -1
 }
 
 func splitArgs(s string) []string {
